@@ -193,6 +193,7 @@ type caseRun struct {
 	unsafeJ bool
 	der     krt.Collection[Out]
 	chain   bool
+	single1 bool // krt.NewSingleton: the transformation of the constant input singletonInput
 	top     krt.Collection[Out] // the observed collection: der, or a collection chained behind it
 	derIdx  krt.Index[string, Out]
 	lateIdx krt.Index[string, Out]
@@ -319,7 +320,15 @@ func (c *caseRun) start() {
 	default:
 		c.srcA = newFetchSrc(c.sec)
 	}
-	if t.Multi {
+	if c.single1 {
+		c.der = krt.NewSingleton[Out](func(ctx krt.HandlerContext) *Out {
+			o := outputs(t, singletonInput, c.fetchFn(ctx, singletonInput))
+			if len(o) == 0 {
+				return nil
+			}
+			return &o[0]
+		}, krt.WithStop(c.stop), krt.WithName("singleton")).AsCollection()
+	} else if t.Multi {
 		c.der = krt.NewManyCollection[Obj, Out](c.prim, func(ctx krt.HandlerContext, i Obj) []Out {
 			defer c.hold(i)
 			return outputs(t, i, c.fetchFn(ctx, i))
@@ -747,8 +756,15 @@ type runner interface {
 
 func (c *caseRun) close() { close(c.stop) }
 
+// singletonInput is the constant input of the singleton cases (Lean: singletonInput).
+var singletonInput = Obj{NS: "n1", Name: "s", Labels: map[string]string{"l1": "1"}, Sel: map[string]string{"l1": "1"}, Ref: "n1/x", Val: "v1"}
+
 func (c *caseRun) setFlags(flags []string) {
 	c.chain = contains(flags, "chain")
+	if contains(flags, "single1") {
+		c.single1 = true
+		c.d.prim[singletonInput.ResourceName()] = singletonInput
+	}
 	for _, m := range []string{"sd", "sj", "s2"} {
 		if contains(flags, m) && c.secmode == "" {
 			c.secmode = m
